@@ -10,6 +10,7 @@ import Cnl2aspModel.Compiler.Route
 import Cnl2aspModel.Compiler.Signatures
 import Cnl2aspModel.Compiler.Naming
 import Cnl2aspModel.Compiler.Temporal
+import Cnl2aspModel.Compiler.Surface
 
 open Lean Cnl2aspModel
 
@@ -225,6 +226,12 @@ def run (j : Json) : Json :=
   Json.mkObj [("compiled", compJ), ("holds", holdsJ)]
 end C05
 
+open Surface in
+def c09keys (j : Json) : Json :=
+  let prep := match j.getObjValAs? String "prep" with | .ok p => some p.toList | _ => none
+  Json.mkObj [("verb", Json.str (chars (verbKey (jstr j "word").toList prep (jbool j "tohave")))),
+              ("concept", Json.str (chars (conceptKey (jstr j "word").toList)))]
+
 open LineCol in
 def linecol (j : Json) : Json :=
   let s := (jstr j "s").toList
@@ -248,6 +255,7 @@ def dispatch (op : String) (j : Json) : Json :=
   | "c13.table" => Ops.c13table j
   | "c07.namer" => Ops.c07namer j
   | "c05.run" => Ops.C05.run j
+  | "c09.keys" => Ops.c09keys j
   | _ => Json.mkObj [("err", "bad-op")]
 
 partial def loop (h : IO.FS.Stream) (out : IO.FS.Stream) : IO Unit := do
